@@ -813,6 +813,18 @@ def _names(repo, rep):
     rep.check(ok, "R10.4", site, "after the block ran, its stream is joined "
               "into the string the mapping refers to", construct="name-join",
               where=wh)
+    # ... also when the block is cut short by a failure which an on-error
+    # element between the block and the translated element handles: the
+    # translation then still runs, and its mapping lists every name of the
+    # translation -- the join has to happen on that exit too (in a
+    # 'finally'), or the mapping value is the raw list of fragments
+    in_finally = False
+    if join:
+        in_finally = any(fld == "finalbody" for n_, fld in lin.path(join[-1]))
+    rep.check(in_finally, "R10.4", site, "the block's stream is joined on "
+              "every exit of the block (a failure handled further out, "
+              "inside the translated element, must not leave a list in the "
+              "mapping)", construct="name-join-on-failure", where=wh)
     # the identifiers are those visit_Translate's mapping loads
     ids = A.show(tc.args[2], limit=8)
     rep.check("id(getitem(self._translations" in ids and "node.name" in ids,
